@@ -25,6 +25,7 @@ mod quantile;
 mod record;
 mod report;
 mod serdelong;
+mod tmoments;
 mod types;
 
 use rayon::prelude::*;
@@ -203,6 +204,13 @@ fn main() {
             let seed: u64 = m.get("seed").and_then(|s| s.parse().ok()).unwrap_or(1);
             let n: usize = m.get("n").and_then(|s| s.parse().ok()).unwrap_or(500);
             record::record_len(&m["trace"], seed, n, &mut r);
+            r
+        }
+        ("record", Some("moments")) => {
+            let mut r = Report::default();
+            let seed: u64 = m.get("seed").and_then(|s| s.parse().ok()).unwrap_or(1);
+            let n: usize = m.get("n").and_then(|s| s.parse().ok()).unwrap_or(400);
+            tmoments::record_moments(&m["trace"], &m["prop"], seed, n, &mut r);
             r
         }
         ("record", Some("minmax")) => {
